@@ -331,6 +331,31 @@ pub struct Cfg {
     /// what the (stubbed) range parser answers when it is given the header
     pub parse: u8,
     pub nranges: usize,
+    /// which half of the assertions this instance carries (the solver's problem is split in two):
+    /// 0 = all, 1 = status + headers + resolver arguments, 2 = body
+    pub focus: u8,
+}
+
+pub const FOCUS_HEADERS: u8 = 1;
+pub const FOCUS_BODY: u8 = 2;
+
+macro_rules! hdr_assert {
+    ($c:expr, $cond:expr, $msg:expr) => {
+        if $c.focus != FOCUS_BODY {
+            assert!($cond, $msg);
+        }
+    };
+}
+
+/// body check or, in a headers-only instance, nothing
+macro_rules! body_check {
+    ($c:expr, $body:expr, $check:expr) => {
+        if $c.focus != FOCUS_HEADERS {
+            $check
+        } else {
+            std::mem::forget($body);
+        }
+    };
 }
 
 pub const IR_ABSENT: u8 = 0;
@@ -404,69 +429,71 @@ pub fn serve_cfg(c: Cfg) {
     let sn = snap(&parts.headers);
 
     if c.method != M_GET && c.method != M_HEAD {
-        assert!(st == 405, "C13: non-GET/HEAD method not answered 405");
+        hdr_assert!(c, st == 405, "C13: non-GET/HEAD method not answered 405");
         let allow = sn.val[S_ALLOW];
-        assert!(allow.is_some() && allow_names_get_and_head(allow.unwrap()), "C13: Allow does not name GET and HEAD");
-        assert!(unsafe { PARSE_CALLS } == 0, "C13: request headers interpreted for a 405");
-        check_small_body(resp);
+        hdr_assert!(c, allow.is_some() && allow_names_get_and_head(allow.unwrap()), "C13: Allow does not name GET and HEAD");
+        hdr_assert!(c, unsafe { PARSE_CALLS } == 0, "C13: request headers interpreted for a 405");
+        body_check!(c, resp, check_small_body(resp));
         return;
     }
 
     // the parser was consulted once, with the entity length, and with the Range header
     // exactly when it is to be honoured
-    assert!(unsafe { PARSE_CALLS } == 1, "C03: Range header not resolved exactly once");
-    assert!(unsafe { PARSE_GOT_LEN } == d.len, "C03: Range resolved against a length that is not the entity's");
+    hdr_assert!(c, unsafe { PARSE_CALLS } == 1, "C03: Range header not resolved exactly once");
+    hdr_assert!(c, unsafe { PARSE_GOT_LEN } == d.len, "C03: Range resolved against a length that is not the entity's");
     if has_range && honoured {
-        assert!(unsafe { PARSE_GOT_HDR && PARSE_GOT_MARKER }, "C03/C05: Range header not handed to the resolver");
+        hdr_assert!(c, unsafe { PARSE_GOT_HDR && PARSE_GOT_MARKER }, "C03/C05: Range header not handed to the resolver");
     } else {
-        assert!(unsafe { !PARSE_GOT_HDR }, "C05: Range honoured although If-Range does not match a strong ETag");
+        hdr_assert!(c, unsafe { !PARSE_GOT_HDR }, "C05: Range honoured although If-Range does not match a strong ETag");
     }
-    check_common_headers(&sn, &d);
+    if c.focus != FOCUS_BODY {
+        check_common_headers(&sn, &d);
+    }
 
     let effective = if has_range && honoured { c.parse } else { PR_NONE };
     if effective == PR_NONE {
-        assert!(st == 200, "C03/C05: expected the complete representation (200)");
-        assert!(sn.count[S_CONTENT_RANGE] == 0, "C02/C05: Content-Range on a 200");
-        assert!(sn.count[S_CONTENT_LENGTH] == 1, "C01: 200 without exactly one Content-Length");
+        hdr_assert!(c, st == 200, "C03/C05: expected the complete representation (200)");
+        hdr_assert!(c, sn.count[S_CONTENT_RANGE] == 0, "C02/C05: Content-Range on a 200");
+        hdr_assert!(c, sn.count[S_CONTENT_LENGTH] == 1, "C01: 200 without exactly one Content-Length");
         let cl = parse_whole_decimal(sn.val[S_CONTENT_LENGTH].unwrap());
-        assert!(cl == Some(d.len), "C01: Content-Length is not the entity length");
-        assert!(entity_headers_present(&sn, &d), "C14: entity headers missing on 200");
+        hdr_assert!(c, cl == Some(d.len), "C01: Content-Length is not the entity length");
+        hdr_assert!(c, entity_headers_present(&sn, &d), "C14: entity headers missing on 200");
         if c.method == M_HEAD {
-            check_empty_body(resp);
+            body_check!(c, resp, check_empty_body(resp));
         } else {
-            check_exact_body(resp, 0, d.len, BODY_POLLS);
+            body_check!(c, resp, check_exact_body(resp, 0, d.len, BODY_POLLS));
         }
         return;
     }
     if effective == PR_UNSAT {
-        assert!(st == 416, "C03: range set that selects nothing not answered 416");
+        hdr_assert!(c, st == 416, "C03: range set that selects nothing not answered 416");
         let cr = sn.val[S_CONTENT_RANGE];
-        assert!(cr.is_some() && sn.count[S_CONTENT_RANGE] == 1, "C03: 416 without Content-Range");
-        assert!(parse_unsat_content_range(cr.unwrap()) == Some(d.len), "C03: 416 Content-Range is not bytes */L");
-        assert!(entity_headers_absent(&sn), "C14: entity headers on 416");
-        assert!(sn.count[S_CONTENT_LENGTH] == 0, "C01: Content-Length on a 416");
-        check_empty_body(resp);
+        hdr_assert!(c, cr.is_some() && sn.count[S_CONTENT_RANGE] == 1, "C03: 416 without Content-Range");
+        hdr_assert!(c, parse_unsat_content_range(cr.unwrap()) == Some(d.len), "C03: 416 Content-Range is not bytes */L");
+        hdr_assert!(c, entity_headers_absent(&sn), "C14: entity headers on 416");
+        hdr_assert!(c, sn.count[S_CONTENT_LENGTH] == 0, "C01: Content-Length on a 416");
+        body_check!(c, resp, check_empty_body(resp));
         return;
     }
     if c.nranges == 1 {
         let (a, b) = rs[0];
-        assert!(st == 206, "C03: satisfiable single range not answered 206");
+        hdr_assert!(c, st == 206, "C03: satisfiable single range not answered 206");
         let cr = sn.val[S_CONTENT_RANGE];
-        assert!(cr.is_some() && sn.count[S_CONTENT_RANGE] == 1, "C02: 206 without Content-Range");
+        hdr_assert!(c, cr.is_some() && sn.count[S_CONTENT_RANGE] == 1, "C02: 206 without Content-Range");
         let got = parse_content_range(cr.unwrap());
-        assert!(got == Some((a, b - 1, d.len)), "C02/C03: Content-Range does not name the resolved range a-b/L");
-        assert!(sn.count[S_CONTENT_LENGTH] == 1, "C01: 206 without Content-Length");
+        hdr_assert!(c, got == Some((a, b - 1, d.len)), "C02/C03: Content-Range does not name the resolved range a-b/L");
+        hdr_assert!(c, sn.count[S_CONTENT_LENGTH] == 1, "C01: 206 without Content-Length");
         let cl = parse_whole_decimal(sn.val[S_CONTENT_LENGTH].unwrap());
-        assert!(cl == Some(b - a), "C01: Content-Length is not the range length");
+        hdr_assert!(c, cl == Some(b - a), "C01: Content-Length is not the range length");
         if c.ir == IR_ABSENT {
-            assert!(entity_headers_present(&sn, &d), "C14: entity headers missing on 206 without If-Range");
+            hdr_assert!(c, entity_headers_present(&sn, &d), "C14: entity headers missing on 206 without If-Range");
         } else {
-            assert!(entity_headers_absent(&sn), "C05: entity headers on 206 under If-Range");
+            hdr_assert!(c, entity_headers_absent(&sn), "C05: entity headers on 206 under If-Range");
         }
         if c.method == M_HEAD {
-            check_empty_body(resp);
+            body_check!(c, resp, check_empty_body(resp));
         } else {
-            check_exact_body(resp, a, b, BODY_POLLS);
+            body_check!(c, resp, check_exact_body(resp, a, b, BODY_POLLS));
         }
         kani::cover!(b == d.len && a > 0, "range ending at the entity end");
         return;
@@ -514,15 +541,15 @@ fn check_multi(c: Cfg, d: &EntDraw, rs: &[(u64, u64); 3], resp: crate::body::Bod
     let required = oracle::multipart_required(&rs[..n], d.len);
     let forbidden = oracle::multipart_forbidden(&rs[..n], d.len);
     if st == 200 {
-        assert!(!required, "C03: complete 200 although the ranges plus 80 bytes each total under half the entity");
-        assert!(sn.count[S_CONTENT_RANGE] == 0, "C02: Content-Range on a 200");
+        hdr_assert!(c, !required, "C03: complete 200 although the ranges plus 80 bytes each total under half the entity");
+        hdr_assert!(c, sn.count[S_CONTENT_RANGE] == 0, "C02: Content-Range on a 200");
         let cl = parse_whole_decimal(sn.val[S_CONTENT_LENGTH].unwrap());
-        assert!(cl == Some(d.len), "C01: Content-Length is not the entity length");
-        assert!(entity_headers_present(sn, d), "C14: entity headers missing on 200");
+        hdr_assert!(c, cl == Some(d.len), "C01: Content-Length is not the entity length");
+        hdr_assert!(c, entity_headers_present(sn, d), "C14: entity headers missing on 200");
         if c.method == M_HEAD {
-            check_empty_body(resp);
+            body_check!(c, resp, check_empty_body(resp));
         } else {
-            check_exact_body(resp, 0, d.len, BODY_POLLS);
+            body_check!(c, resp, check_exact_body(resp, 0, d.len, BODY_POLLS));
         }
         kani::cover!(true, "multi-range answered by the complete representation");
         return;
@@ -544,24 +571,24 @@ fn check_multi(c: Cfg, d: &EntDraw, rs: &[(u64, u64); 3], resp: crate::body::Bod
             }
             i += 1;
         }
-        assert!(total > u64::MAX as u128, "C03/C13: 413 although the multipart body fits in 64 bits");
-        check_small_body(resp);
+        hdr_assert!(c, total > u64::MAX as u128, "C03/C13: 413 although the multipart body fits in 64 bits");
+        body_check!(c, resp, check_small_body(resp));
         return;
     }
-    assert!(st == 206, "C03: multi-range request answered with an unexpected status");
-    assert!(!forbidden, "C03: multipart although the ranges alone total the entity length or more");
-    assert!(sn.count[S_CONTENT_RANGE] == 0, "C06: top-level Content-Range on a multipart response");
-    assert!(sn.count[S_CONTENT_TYPE] == 1, "C06: multipart without exactly one Content-Type");
-    assert!(bytes_eq(sn.val[S_CONTENT_TYPE].unwrap(), b"multipart/byteranges; boundary=B"), "C06: Content-Type is not multipart/byteranges with the boundary used in the body");
-    assert!(sn.count[S_CONTENT_LENGTH] == 1, "C01: multipart 206 without Content-Length");
+    hdr_assert!(c, st == 206, "C03: multi-range request answered with an unexpected status");
+    hdr_assert!(c, !forbidden, "C03: multipart although the ranges alone total the entity length or more");
+    hdr_assert!(c, sn.count[S_CONTENT_RANGE] == 0, "C06: top-level Content-Range on a multipart response");
+    hdr_assert!(c, sn.count[S_CONTENT_TYPE] == 1, "C06: multipart without exactly one Content-Type");
+    hdr_assert!(c, bytes_eq(sn.val[S_CONTENT_TYPE].unwrap(), b"multipart/byteranges; boundary=B"), "C06: Content-Type is not multipart/byteranges with the boundary used in the body");
+    hdr_assert!(c, sn.count[S_CONTENT_LENGTH] == 1, "C01: multipart 206 without Content-Length");
     let cl = parse_whole_decimal(sn.val[S_CONTENT_LENGTH].unwrap());
-    assert!(cl.is_some(), "C01: malformed Content-Length");
+    hdr_assert!(c, cl.is_some(), "C01: malformed Content-Length");
     let cl = cl.unwrap();
     if c.method == M_HEAD {
-        check_empty_body(resp);
+        body_check!(c, resp, check_empty_body(resp));
         return;
     }
-    expect_kind!(resp, Multipart, bd => check_multi_body(c, d, rs, bd, cl, with_hdrs))
+    body_check!(c, resp, expect_kind!(resp, Multipart, bd => check_multi_body(c, d, rs, bd, cl, with_hdrs)))
 }
 
 fn check_multi_body(c: Cfg, d: &EntDraw, rs: &[(u64, u64); 3], body: crate::body::Body<Chunk, HErr>, cl: u64, with_hdrs: bool) {
@@ -778,5 +805,6 @@ pub mod pgen;
 
 #[path = "serve_gen.rs"]
 pub mod gen;
+
 
 
